@@ -163,7 +163,14 @@ def job_specs(draw, max_tasks: int = 14, min_tasks: int = 0, max_outs: int = 4, 
             # into static_input_kw): the upstream value must win
             if "e" in sl and draw(st.booleans()):
                 sl["d"] = draw(_static)
+        # one callable used by several tasks with different declarations (other output names, other GPU requirement): whatever is
+        # remembered per callable must not be taken for the task
+        fn_of = None
+        same_arity = [j for j, t0 in enumerate(tasks) if len(t0["outs"]) == len(outs) and t0.get("fn_of") is None]
+        if same_arity and draw(st.integers(0, 5)) == 0:
+            fn_of = draw(st.sampled_from(same_arity))
         tasks.append({
+            "fn_of": fn_of,
             "name": tname(perm[i]),
             "outs": outs,
             "gpu": bool(gpu and draw(st.integers(0, 9)) == 0),
@@ -172,6 +179,17 @@ def job_specs(draw, max_tasks: int = 14, min_tasks: int = 0, max_outs: int = 4, 
             "placeholders": draw(st.booleans()),
             "vt": draw(st.sampled_from(VALUE_TYPES)),
         })
+    # the usual builder idiom `t = TaskBuilder.from_callable(f); with_node("a", t).with_node("b", t)` puts ONE TaskInstance object
+    # under two task names: a twin of a task whose keyword parameters are fed by edges (and carry static defaults), itself without
+    # any edge -- it must see the static defaults, whatever its sibling was fed before it in the same process
+    cands = [i for i, t in enumerate(tasks) if not any("e" in sl for sl in t["args"]) and any("e" in sl and "d" in sl for sl in t["kwargs"].values())]
+    if cands and len(tasks) < max_tasks + 1 and draw(st.booleans()):
+        i = draw(st.sampled_from(cands))
+        t = tasks[i]
+        tasks.append({"name": tname(n) if odd_names else (task_name(n) if padded else f"t{n}"), "outs": list(t["outs"]), "gpu": t["gpu"],
+                      "args": [dict(sl) for sl in t["args"]],
+                      "kwargs": {k: ({"s": sl["d"]} if "e" in sl else dict(sl)) for k, sl in t["kwargs"].items() if "e" not in sl or "d" in sl},
+                      "placeholders": t["placeholders"], "vt": t.get("vt"), "twin_of": i})
     all_ds = [[i, o] for i, t in enumerate(tasks) for o in t["outs"]]
     if ext == "none" or not all_ds:
         ext_l: list = []
@@ -212,7 +230,11 @@ def build_job(spec: dict, fn_factory=make_fn, faults: dict | None = None) -> Job
     tasks: dict[str, TaskInstance] = {}
     edges: list[Task2TaskEdge] = []
     names = [t["name"] for t in spec["tasks"]]
+    fns: dict[int, Any] = {}
     for j, t in enumerate(spec["tasks"]):
+        if t.get("twin_of") is not None:
+            tasks[t["name"]] = tasks[names[t["twin_of"]]]  # the very same TaskInstance object under a second name, no edges of its own
+            continue
         ps: dict[str, Any] = {}
         kw: dict[str, Any] = {}
         for p, s in enumerate(t["args"]):
@@ -231,8 +253,12 @@ def build_job(spec: dict, fn_factory=make_fn, faults: dict | None = None) -> Job
                     kw[k] = s["d"]  # static default of a parameter that is also fed by an edge
             else:
                 kw[k] = s["s"]
-        fn = fn_factory(t["name"], len(t["outs"])) if faults is None else fn_factory(t["name"], len(t["outs"]), faults.get(t["name"]))
-        fn = with_value_type(fn, t.get("vt"))
+        if t.get("fn_of") is not None:
+            fn = fns[t["fn_of"]]  # the very same callable object (and value type) as an earlier task
+        else:
+            fn = fn_factory(t["name"], len(t["outs"])) if faults is None else fn_factory(t["name"], len(t["outs"]), faults.get(t["name"]))
+            fn = with_value_type(fn, t.get("vt"))
+        fns[j] = fn
         tasks[t["name"]] = TaskInstance(
             definition=TaskDefinition(
                 func=TaskDefinition.func_enc(fn),
